@@ -262,6 +262,18 @@ func genFileCase(seed int64, idx int, files []*corpus.File) *Case {
 		c.Kind = "table-deep-field"
 		c.Edits = []Edit{{Off: o, Data: put16(gen.Pick(r, fieldValues16))}}
 		c.Note = fmt.Sprintf("%s+%d", tagStr(t.tag), o-t.off)
+	case kind < 17 && kind >= 11 && lay.kind == "woff" && r.Intn(3) != 0:
+		// WOFF: the compressed and the original length of one table set together (a reader
+		// that sizes a buffer from both is only bounded by the file when one of them is sane)
+		t := pickTable()
+		v := gen.Pick(r, []uint32{0x40000000, 0x7FFFFFFF, 0xFFFFFFFF, uint32(len(b)) * 40000})
+		v2 := v
+		if r.Bool() {
+			v2 = gen.Pick(r, []uint32{0x40000000, 0x7FFFFFFF, 0xFFFFFFFF, uint32(len(b)) * 30000})
+		}
+		c.Kind = "woff-directory-lengths"
+		c.Edits = []Edit{{Off: t.dirOff + 8, Data: put32(v)}, {Off: t.dirOff + 12, Data: put32(v2)}}
+		c.Note = fmt.Sprintf("%s compLength=%#x origLength=%#x", tagStr(t.tag), v, v2)
 	case kind < 16: // directory entry: offset / length / tag / checksum
 		t := pickTable()
 		which := r.Intn(3)
